@@ -297,82 +297,72 @@ def _make_exc(kind, where):
 
 class BoundaryInjector(object):
     """Counts the calls the assembly makes into its elements and raises at the
-    k-th one, before or after the real method ran.  Attached per *instance*."""
+    k-th one, before or after the real method ran.
+
+    The seam is installed on the elements' *classes* for the duration of one
+    assemble call and dispatches to the original function with whatever `self`
+    it is called on, so an implementation that works on stand-ins or copies of
+    the elements (copy.copy(module) pointing at a scratch record) is driven and
+    counted exactly like one that uses the caller's objects.  (A first version
+    patched the instances' __dict__; copy.copy() then carried the patched
+    closure - bound to the ORIGINAL element - over to the stand-in, and the
+    harness itself made a correct re-implementation extract from the wrong
+    record.  See DESIGN.md 9.3.)  Nothing else runs during the call (single
+    thread, atomic operations), so every call seen here is the manager's."""
 
     def __init__(self, instances, fault):
         self.fault = fault
         self.count = 0
         self.fired = None
         self.trace = []
-        self._patched = []
-        self._class_patches = {}
-        seen = set()
+        self._class_patches = []
+        self._labels = {}
+        classes = []
         for label, inst in instances:
-            if id(inst) in seen:
-                continue
-            seen.add(id(inst))
+            self._labels.setdefault(id(inst), label)
+            if type(inst) not in classes:
+                classes.append(type(inst))
+        # phase 1: resolve the original functions before anything is patched
+        originals = {}
+        for cls in classes:
             for m in ELEMENT_METHODS:
-                real = getattr(inst, m)
-                try:
-                    if os.environ.get("VERIF_FORCE_CLASS_PATCH"):
-                        raise TypeError("forced (harness self-test)")
-                    inst.__dict__[m] = self._wrap(label, m, real)
-                    self._patched.append((inst, m))
-                except (AttributeError, TypeError):
-                    # instances without a __dict__ (e.g. __slots__): shadow the method on the
-                    # instance's class for the duration of the call, dispatching on identity
-                    self._patch_class(label, inst, m)
+                originals[(cls, m)] = (m in cls.__dict__, cls.__dict__.get(m), getattr(cls, m))
+        # phase 2: shadow them
+        for (cls, m), (had, raw, func) in originals.items():
+            setattr(cls, m, self._dispatch(m, func))
+            self._class_patches.append((cls, m, had, raw))
 
-    def _wrap(self, label, mname, real):
-        def wrapper(*a, **kw):
-            k = self.count
-            self.count += 1
-            self.trace.append("%s.%s" % (label, mname))
-            f = self.fault
-            hit = f is not None and f.get("mode") == "boundary" and f["call"] == k and self.fired is None
+    def _dispatch(self, mname, func):
+        inj = self
+
+        def dispatch(self_, *a, **kw):
+            label = inj._labels.get(id(self_)) or "copy-of:%s" % getattr(getattr(self_, "record", None), "id", "?")
+            k = inj.count
+            inj.count += 1
+            inj.trace.append("%s.%s" % (label, mname))
+            f = inj.fault
+            hit = f is not None and f.get("mode") == "boundary" and f["call"] == k and inj.fired is None
             if hit and f["when"] == "before":
-                self.fired = "%s.%s#%d:before" % (label, mname, k)
-                raise _make_exc(f["exc"], self.fired)
-            out = real(*a, **kw)
+                inj.fired = "%s.%s#%d:before" % (label, mname, k)
+                raise _make_exc(f["exc"], inj.fired)
+            out = func(self_, *a, **kw)
             if hit and f["when"] == "after":
-                self.fired = "%s.%s#%d:after" % (label, mname, k)
-                raise _make_exc(f["exc"], self.fired)
+                inj.fired = "%s.%s#%d:after" % (label, mname, k)
+                raise _make_exc(f["exc"], inj.fired)
             return out
 
-        return wrapper
-
-    def _patch_class(self, label, inst, m):
-        cls = type(inst)
-        key = (cls, m)
-        if key not in self._class_patches:
-            had = m in cls.__dict__
-            orig = cls.__dict__.get(m)
-            table = {}
-            inj = self
-
-            def dispatch(self_, *a, **kw):
-                real = (orig.__get__(self_, cls) if had else getattr(super(cls, self_), m))
-                w = table.get(id(self_))
-                return w(real, *a, **kw) if w else real(*a, **kw)
-
-            setattr(cls, m, dispatch)
-            self._class_patches[key] = (had, orig, table)
-        wrapped = self._wrap
-
-        def call_with(real, *a, **kw):
-            return wrapped(label, m, real)(*a, **kw)
-
-        self._class_patches[key][2][id(inst)] = call_with
+        return dispatch
 
     def remove(self):
-        for inst, m in self._patched:
-            inst.__dict__.pop(m, None)
-        for (cls, m), (had, orig, _) in self._class_patches.items():
+        for cls, m, had, raw in self._class_patches:
             if had:
-                setattr(cls, m, orig)
+                setattr(cls, m, raw)
             else:
-                delattr(cls, m)
-        self._class_patches = {}
+                try:
+                    delattr(cls, m)
+                except AttributeError:
+                    pass
+        self._class_patches = []
 
 
 class LineInjector(object):
